@@ -249,3 +249,80 @@ func VH_C19_cast_swap() {
 	}
 	vhC19UseAll("C19.cast.nopanic", Open(root), o.UUID())
 }
+
+// VH_C19_identifiers: identifiers are arguments too (Initialize accepts any
+// string, GetByUUID takes one).  Whatever the caller passes — empty, relative,
+// holding a NUL byte, longer than a file name may be, going *through* a stored
+// object file, upper-case, with blanks — every call that builds a path from it
+// returns; it reports an error or a plain "no", it does not panic, and the
+// objects already stored are untouched.
+func VH_C19_identifiers() {
+	cfg := []vhCfg{vhCfgs[0], vhCfgs[1], vhCfgs[2], vhCfgs[3]}[vChoice("cfg", vBound("CFG", 4))]
+	db, root := vhOpenDB(cfg)
+	stored := vhNewObj()
+	vAssert("C19.ids.pre", db.InsertOrUpdate(stored) == nil)
+	if cfg.async {
+		vAssert("C19.ids.flush", db.FlushAllAndCommit(&vObj{}) == nil)
+	}
+	long := make([]byte, 300)
+	for k := range long {
+		long[k] = 'x'
+	}
+	ext := ".json"
+	if cfg.compress {
+		ext += ".gz"
+	}
+	ids := []string{
+		"", ".", "..", "../x", "a/b", "a\x00b", string(long), stored.UUID() + ext + "/x", stored.UUID() + "/..",
+		" " + stored.UUID(), stored.UUID() + "\n", "schema", "schema.json", "6BA7B810-9DAD-41D1-80B4-00C04FD430C8",
+	}
+	id := ids[vChoice("id", len(ids))]
+	probe := &vObj{A: 9, S: "s", U: 4321}
+	probe.Initialize(id)
+	call := vChoice("call", 6)
+	panicked := vCatch(func() {
+		switch call {
+		case 0:
+			db.Exist(probe)
+		case 1:
+			db.Delete(probe)
+		case 2:
+			db.GetByUUID(&vObj{}, id)
+		case 3:
+			db.InsertOrUpdate(probe)
+		case 4:
+			db.InsertOrUpdateMany(probe)
+		case 5:
+			db.Get(probe)
+		}
+	})
+	vAssert("C19.ids.nopanic", !panicked)
+	// the stored object is still there and readable (what an accepted insert
+	// under a path-like identifier does to the layout is the caller's business
+	// and outside C19: not asserted)
+	g, err := db.GetByUUID(&vObj{}, stored.UUID())
+	vAssert("C19.ids.stored_survives", err == nil && g != nil && vhFieldsEq(g.(*vObj), stored))
+	_ = root
+}
+
+// VH_C19_schema_ids: a structurally valid schema.json whose object-id table
+// names an identifier no file name can be: holding a NUL byte, longer than a
+// file name may be, with a path separator, or going through a stored object
+// file.  The load reports the damage; whatever is called afterwards returns.
+func VH_C19_schema_ids() {
+	db, root := vhOpenDB(vhCfgs[0])
+	a := &vObj{A: 1, S: "s", U: 1}
+	b := &vObj{A: 2, S: "s", U: 2}
+	vAssert("C19.sids.pre", db.InsertOrUpdate(a) == nil && db.InsertOrUpdate(b) == nil)
+	vAssert("C19.sids.close", db.Close() == nil)
+	long := make([]byte, 300)
+	for k := range long {
+		long[k] = 'x'
+	}
+	bad := []string{"a\\u0000b", string(long), "a/b", b.UUID() + ".json/x", "..", ""}[vChoice("bad", 6)]
+	if !vJSONSet(root+"/sod.vObj/schema.json", "index/object-ids/0", "\""+bad+"\"") {
+		return
+	}
+	db2 := Open(root)
+	vhC19UseAll("C19.sids", db2, a.UUID())
+}
